@@ -201,6 +201,15 @@ struct Node : Session
 	void state_change(const States::SessionStates a, const States::SessionStates b) override
 	{ states.emplace_back((int)a, (int)b); sim::trace(nm + " state " + get_session_state_string(a) + "->" + get_session_state_string(b)); }
 	bool authenticate(SessionID&, const Message *) override { return auth_ok; }
+	// the application hook that may alter a message just before it is encoded: when enabled it stamps application
+	// messages, so that "stored exactly as transmitted" also covers the order of modify_outbound, encode, store
+	bool tweak_outbound = false; unsigned tweaks = 0;
+	void modify_outbound(Message *msg) override
+	{
+		if (!tweak_outbound || msg->is_admin()) return;
+		UTEST::ClOrdID id; msg->get(id);
+		if (!msg->have(UTEST::Account::get_field_id())) { *msg << new UTEST::Account("MO-" + id()); ++tweaks; }   // idempotent: a replayed message already carries it
+	}
 	unsigned nrs() const { return _next_receive_seq; }
 	unsigned nss() const { return _next_send_seq; }
 	States::SessionStates st() const { return _state; }
